@@ -98,7 +98,7 @@ impl<T> vstd::std_specs::core::IndexSpecImpl<TermIndex> for TermVec<T> {
 //@end
 //@struct GRM Terminal fields=idx,assoc
 //@end
-//@struct GRM Grammar fields=productions,terminals
+//@struct GRM Grammar fields=productions,terminals,augmented_index,augmented_layout_index
 //@end
 //@enum SET ParserAlgo
 //@end
@@ -356,6 +356,17 @@ spec fn is_aug(g: &Grammar, aug: Seq<SymbolIndex>, prod: &Production) -> bool {
 //@allow assume_specification <[T]>::contains returns whether some element equals the argument (std dependency; ASSUMED for the element type used here, SymbolIndex, whose derived == is equality of the wrapped usize)
 pub assume_specification<T: PartialEq> [<[T]>::contains] (s: &[T], x: &T) -> (r: bool)
     ensures r == s@.contains(*x);
+
+//@lift AGB aug_block
+//@impl AGB /^impl < 'g , 's > LRTable < 'g , 's >/
+//@  fn aug_block ret=r
+//@  |         ensures
+//@  |             // [C01] the augmented symbols are S' and, when the grammar has a Layout rule, the layout grammar's start -- nothing else
+//@  |             r@ == (match self.grammar.augmented_layout_index {
+//@  |                 Some(l) => seq![self.grammar.augmented_index, l],
+//@  |                 None => seq![self.grammar.augmented_index],
+//@  |             }), // [C01]
+//@end
 
 //@lift RDB reduce_block
 //@allow external_body xexpr_follow_iter: the expression `item.follow.borrow().iter()` (RefCell::borrow + Deref of std::cell::Ref + BTreeSet::iter; Verus accepts no specification for Ref's Deref impl) is replaced by a call of an external function (body dropped: a function cannot return an iterator borrowing from a temporary Ref); ASSUMED: it yields exactly the follow set of the item, each symbol once
